@@ -34,3 +34,58 @@ package common
 //@   ensures [not-found] hasFracName(pod) ==> (result1 != nil) == (noInitNamed(pod, fracName(pod), len(pod.Spec.InitContainers)) && noRegNamed(pod, fracName(pod), len(pod.Spec.Containers)))
 //@   ensures [init-first] hasFracName(pod) && !noInitNamed(pod, fracName(pod), len(pod.Spec.InitContainers)) ==> result1 == nil && result0.Type == gpusharingconfigmap.InitContainer
 //@ end
+
+// ---- C19 "admission's mutation is idempotent": the pieces of (*GPUSharing).Mutate that live here ----------
+// envFrom source: a second call with the same config map name changes nothing.
+//@ define hasEnvFrom(c *v1.Container, name string) bool = exists i int :: 0 <= i && i < len(c.EnvFrom) && c.EnvFrom[i].ConfigMapRef != nil && c.EnvFrom[i].ConfigMapRef.Name == name
+
+//@ func AddDirectEnvVarsConfigMapSource
+//@   props C19
+//@   requires container != nil
+//@   modifies container.EnvFrom
+//@   loop 1
+//@     invariant -1 <= rangeindex && rangeindex < len(container.EnvFrom)
+//@     invariant forall j int :: 0 <= j && j <= rangeindex ==> !(container.EnvFrom[j].ConfigMapRef != nil && container.EnvFrom[j].ConfigMapRef.Name == directEnvVarsMapName)
+//@     decreases len(container.EnvFrom) - rangeindex
+//@   ensures [idempotent-len] old(hasEnvFrom(container, directEnvVarsMapName)) ==> len(container.EnvFrom) == old(len(container.EnvFrom))
+//@   ensures [idempotent-elems] old(hasEnvFrom(container, directEnvVarsMapName)) ==> (forall i int :: 0 <= i && i < old(len(container.EnvFrom)) ==> container.EnvFrom[i].ConfigMapRef == old(container.EnvFrom[i].ConfigMapRef))
+//@   ensures [established] hasEnvFrom(container, directEnvVarsMapName)
+//@   ensures [appends-one] !old(hasEnvFrom(container, directEnvVarsMapName)) ==> len(container.EnvFrom) == old(len(container.EnvFrom)) + 1
+//@ end
+
+// env var: afterwards the variable is the LAST entry and no other entry has its name; entries with
+// other names are kept (count).  Applying it again leaves an already normalised list as it is.
+//@ define otherNames(c *v1.Container, name string, n int) bool = forall j int :: 0 <= j && j < n ==> c.Env[j].Name != name
+//@ func AddEnvVarToContainer
+//@   props C19
+//@   requires container != nil
+//@   modifies container.Env
+//@   loop 1
+//@     invariant -1 <= rangeindex && rangeindex < len(container.Env)
+//@     invariant len(envVars) <= rangeindex + 1
+//@     invariant forall j int :: 0 <= j && j < len(envVars) ==> envVars[j].Name != envVar.Name
+//@     invariant old(otherNames(container, envVar.Name, len(container.Env))) ==> len(envVars) == rangeindex + 1 && (forall j int :: 0 <= j && j <= rangeindex ==> envVars[j].Name == container.Env[j].Name && envVars[j].Value == container.Env[j].Value && envVars[j].ValueFrom == container.Env[j].ValueFrom)
+//@     decreases len(container.Env) - rangeindex
+//@   ensures [last-is-var] len(container.Env) >= 1 && container.Env[len(container.Env) - 1].Name == envVar.Name && container.Env[len(container.Env) - 1].Value == envVar.Value && container.Env[len(container.Env) - 1].ValueFrom == envVar.ValueFrom
+//@   ensures [unique] otherNames(container, envVar.Name, len(container.Env) - 1)
+//@   ensures [no-growth] len(container.Env) <= old(len(container.Env)) + 1
+//@   ensures [others-kept-when-absent] old(otherNames(container, envVar.Name, len(container.Env))) ==> len(container.Env) == old(len(container.Env)) + 1 && (forall j int :: 0 <= j && j < old(len(container.Env)) ==> container.Env[j].Name == old(container.Env[j].Name) && container.Env[j].Value == old(container.Env[j].Value) && container.Env[j].ValueFrom == old(container.Env[j].ValueFrom))
+//@ end
+
+// config map volume: afterwards the volume is the LAST entry, carries the config map name, and no other
+// volume has its name (that the volumes with other names are kept is not claimed: v1.Volume has ~30 pointer
+// fields and the copy invariant times out).
+//@ define otherVolNames(ps *v1.PodSpec, name string, n int) bool = forall j int :: 0 <= j && j < n ==> ps.Volumes[j].Name != name
+//@ func addConfigMapVolume
+//@   props C19
+//@   requires podSpec != nil
+//@   modifies podSpec.Volumes
+//@   loop 1
+//@     invariant -1 <= rangeindex && rangeindex < len(podSpec.Volumes)
+//@     invariant len(updatedVolumes) <= rangeindex + 1
+//@     invariant forall j int :: 0 <= j && j < len(updatedVolumes) ==> updatedVolumes[j].Name != volumeName
+//@     decreases len(podSpec.Volumes) - rangeindex
+//@   ensures [last-is-volume] len(podSpec.Volumes) >= 1 && podSpec.Volumes[len(podSpec.Volumes) - 1].Name == volumeName && podSpec.Volumes[len(podSpec.Volumes) - 1].ConfigMap != nil && podSpec.Volumes[len(podSpec.Volumes) - 1].ConfigMap.Name == configMapName
+//@   ensures [unique] otherVolNames(podSpec, volumeName, len(podSpec.Volumes) - 1)
+//@   ensures [no-growth] len(podSpec.Volumes) <= old(len(podSpec.Volumes)) + 1
+//@ end
